@@ -29,7 +29,7 @@ Proof.
 Qed.
 
 Lemma starter_wrap : forall b l ts, starter1 ts -> starter1 (wrap b l ts).
-Proof. intros [] l ts H; [exact I|exact H]. Qed.
+Proof. intros [] l ts H; [reflexivity|exact H]. Qed.
 
 Lemma wrap_nonnil : forall b l ts, ts <> [] -> wrap b l ts <> [].
 Proof. intros [] l ts H; [discriminate|exact H]. Qed.
@@ -68,8 +68,7 @@ Proof.
       exists (wrap (Nat.ltb (prec e1) (bin_prec o)) (rootlab e1) (render e1) ++ (l, TOp (bin_opr o)) :: pre), t.
       rewrite Hp. rewrite <- app_assoc. split; [reflexivity|exact Ht].
     + pose proof (starter_wrap (Nat.ltb (prec e1) (bin_prec o)) (rootlab e1) _ Sta) as H.
-      pose proof (wrap_nonnil (Nat.ltb (prec e1) (bin_prec o)) (rootlab e1) _ Na) as H2.
-      destruct (wrap (Nat.ltb (prec e1) (bin_prec o)) (rootlab e1) (render e1)); [contradiction|exact H].
+      apply lead_ok_app. exact H.
     + pose proof (wrap_nonnil (Nat.ltb (prec e1) (bin_prec o)) (rootlab e1) _ Na) as H2.
       destruct (wrap (Nat.ltb (prec e1) (bin_prec o)) (rootlab e1) (render e1)); [contradiction|discriminate].
   - (* EPar *)
@@ -148,7 +147,8 @@ Proof.
     - lia.
     - rewrite app_length. cbn [length]. lia.
     - lia.
-    - cbn. split; reflexivity.
+    - cbn. split; [reflexivity|discriminate].
+    - apply pstart_vac. reflexivity.
     - reflexivity.
     - exact Hd.
     - intros r a Hr. apply quiet_closer; [right; right; reflexivity|lia].
